@@ -774,6 +774,8 @@ struct LoopResult
   bool closing = false;   // the harness did something that makes the endpoint start closing
   bool appClosed = false; // ... namely an application-level sendClose
   bool connLost = false;
+  bool stuck = false;     // an application message did not arrive completely within 30 s: the wire is
+                          // desynchronised or stalled; no further waits that need a readable wire
 };
 
 std::size_t countDataMsgs(const std::string &rx)
@@ -837,7 +839,7 @@ LoopResult driveLoop(const Stream &s, const LoopPlan &plan, c18net::RawConn &con
         // let the message reach the wire completely before anything can start a close: a close
         // racing a partially written large frame is transport behaviour (C01/C16), not C18's
         ++certainData;
-        conn.readUntil([&] { return countDataMsgs(conn.rx) >= certainData; }, 30.0);
+        if (!r.stuck && !conn.readUntil([&] { return countDataMsgs(conn.rx) >= certainData; }, 30.0)) r.stuck = true;
       }
     }
     if (seg == nseg) break;
@@ -1000,7 +1002,10 @@ PBT_PROPERTY(server_wire)
 
   // end of case: a point behind which everything was processed, then collect the wire
   bool synced = false;
-  if (!r.closing)
+  if (r.stuck) c.label("an application message did not reach the wire completely within 30 s");
+  if (!r.closing && r.stuck)
+    conn.writeSegment(refws::encode(maskedFrame(src, refws::OpClose, std::string("\x03\xe8", 2), true))); // end it; the final wire is judged
+  else if (!r.closing)
   {
     conn.writeSegment(refws::encode(maskedFrame(src, refws::OpPing, kSentinel, true)));
     if (!conn.readUntil([&] { return sentinelOrVerdict(conn.rx, kSentinel, s.pings.size()); }, 30.0))
@@ -1015,7 +1020,7 @@ PBT_PROPERTY(server_wire)
   // point: frames leave in order, so everything it sent before has arrived when the close frame
   // has. Only then is our side of the connection shut down - replies to a peer that has already
   // sent FIN may be dropped by the transport, which is not C18's business.
-  if (conn.readUntil([&] { return wireHasClose(conn.rx); }, kCloseWait)) synced = true;
+  if (conn.readUntil([&] { return wireHasClose(conn.rx); }, r.stuck ? 1.0 : kCloseWait)) synced = true;
   else c.label("no close frame from the server");
   conn.shutdownWrite();
   bool sawEof = conn.readUntil([&] { return conn.eof; }, 30.0);
@@ -1174,16 +1179,20 @@ bool exchangeAndClose(pbt::Src &src, pbt::Case &c, ClientUnderTest &cut, const S
     return false;
   }
   bool synced = false, sentinelTimeout = false;
+  if (r.stuck) c.label("an application message did not reach the wire completely within 30 s");
   if (!r.closing)
   {
-    conn.writeSegment(refws::encode(maskedFrame(src, refws::OpPing, kSentinel, false)));
-    if (conn.readUntil([&] { return sentinelOrVerdict(conn.rx, kSentinel, s.pings.size()); }, 30.0)) synced = true;
-    else sentinelTimeout = true;
+    if (!r.stuck)
+    {
+      conn.writeSegment(refws::encode(maskedFrame(src, refws::OpPing, kSentinel, false)));
+      if (conn.readUntil([&] { return sentinelOrVerdict(conn.rx, kSentinel, s.pings.size()); }, 30.0)) synced = true;
+      else sentinelTimeout = true;
+    }
     conn.writeSegment(refws::encode(maskedFrame(src, refws::OpClose, std::string("\x03\xe8", 2), false))); // orderly end
   }
   // the client's own close frame (echo, 1007 or the application's) is the other synchronisation
   // point: frames are sent in order, so everything before it has arrived when it has
-  if (conn.readUntil([&] { return wireHasClose(conn.rx); }, kCloseWait)) synced = true;
+  if (conn.readUntil([&] { return wireHasClose(conn.rx); }, r.stuck ? 1.0 : kCloseWait)) synced = true;
   else c.label("no close frame from the client");
   const bool allRead = conn.allBarriersExact(); // every inbound byte was read by the client
   cut.cl->disconnect();                         // joins the client's I/O thread: every callback has returned
@@ -1296,6 +1305,15 @@ bool exchangeKeepOpen(pbt::Src &src, pbt::Case &c, ClientUnderTest &cut, const S
   if (r.connLost)
   {
     c.fail("C18/client/connection-lost", "the client dropped the connection in the middle of a valid stream" + where);
+    return false;
+  }
+  if (r.stuck)
+  {
+    cut.cl->disconnect();
+    conn.readUntil([&] { return conn.eof; }, 30.0);
+    std::vector<std::string> none;
+    if (judgeWire(c, "client", conn.rx, conn.eof, none, s.pings, r.sends, kSentinel, true))
+      c.failTimed("C18/client/send-stalled", "an application message did not reach the wire within 30 s" + where);
     return false;
   }
   conn.writeSegment(refws::encode(maskedFrame(src, refws::OpPing, kSentinel, false)));
